@@ -254,6 +254,9 @@ func (db *SingleBucketBackend) HeadObject(bucketName, objectName string) (*gofak
 	if bucketName != db.name {
 		return nil, gofakes3.BucketNotFound(bucketName)
 	}
+	if !validObjectKey(objectName) {
+		return nil, gofakes3.KeyNotFound(objectName)
+	}
 
 	db.lock.Lock()
 	defer db.lock.Unlock()
@@ -285,6 +288,9 @@ func (db *SingleBucketBackend) HeadObject(bucketName, objectName string) (*gofak
 func (db *SingleBucketBackend) GetObject(bucketName, objectName string, rangeRequest *gofakes3.ObjectRangeRequest) (obj *gofakes3.Object, err error) {
 	if bucketName != db.name {
 		return nil, gofakes3.BucketNotFound(bucketName)
+	}
+	if !validObjectKey(objectName) {
+		return nil, gofakes3.KeyNotFound(objectName)
 	}
 
 	db.lock.Lock()
@@ -350,6 +356,10 @@ func (db *SingleBucketBackend) PutObject(
 		return result, gofakes3.BucketNotFound(bucketName)
 	}
 
+	if !validObjectKey(objectName) {
+		return result, errUnsupportedKey(objectName)
+	}
+
 	// Read and validate the complete upload (declared size, Content-MD5) before
 	// the destination is touched: a rejected or interrupted upload must leave
 	// the previously stored object as it was.
@@ -369,6 +379,10 @@ func (db *SingleBucketBackend) PutObject(
 
 	objectFilePath := filepath.FromSlash(objectName)
 	objectDir := filepath.Dir(objectFilePath)
+
+	if keyPathConflict(db.fs, "", objectName) {
+		return result, errUnsupportedKey(objectName)
+	}
 
 	if objectDir != "." {
 		if err := db.fs.MkdirAll(objectDir, 0777); err != nil {
@@ -465,6 +479,15 @@ func (db *SingleBucketBackend) DeleteObject(bucketName, objectName string) (resu
 }
 
 func (db *SingleBucketBackend) deleteObjectLocked(bucketName, objectName string) error {
+	if !validObjectKey(objectName) {
+		// no object can be stored under such a key: nothing to delete
+		return nil
+	}
+	if stat, err := db.fs.Stat(filepath.FromSlash(objectName)); err == nil && stat.IsDir() {
+		// a directory is the common prefix of other keys, not an object
+		return nil
+	}
+
 	// S3 does not report an error when attemping to delete a key that does not exist, so
 	// we need to skip IsNotExist errors.
 	if err := db.fs.Remove(filepath.FromSlash(objectName)); err != nil && !os.IsNotExist(err) {
